@@ -2,6 +2,7 @@ import Eliot.Properties.C15
 #print axioms Gen.C15.gen_ctx_private
 #print axioms Gen.C15.driver_ctx_untouched
 #print axioms Gen.C15.nested_wrapped
+#print axioms Gen.C15.wrapper_transparent
 #print axioms Gen.C15.wrapper_transparent_partial
 #print axioms Gen.C15.wrapper_drops_return_value
 #print axioms Gen.C15.wrapFixed_transparent
